@@ -454,6 +454,14 @@ func (r *runner) exec1(op []string) []string {
 			r.wait()
 		}
 		return []string{r.sock()}
+	case "7":
+		// a write that the socket will refuse (larger than any UDP datagram); with batch writing it sits in the write queue until
+		// the next flush. The listener's bookkeeping must not depend on what becomes of it.
+		id := common.AtoI(op[1])
+		if id < len(r.conns) && !r.closed[id] {
+			r.guard(func() { _, _ = r.conns[id].Write(make([]byte, 70000)) })
+		}
+		return []string{r.sock()}
 	case "6":
 		id := common.AtoI(op[1])
 		if id < len(r.conns) {
@@ -573,6 +581,22 @@ func runHistory(h *common.History, rng *rand.Rand) {
 		h.Tags = append(h.Tags, "loopback_sockets")
 	}
 	for i := 0; i < n; i++ {
+		if big && rng.IntN(8) == 0 {
+			// a remote sends several large datagrams before anybody accepts its connection: all of them wait in the connection
+			rem := rng.IntN(nrem)
+			for k, m := 0, 3+rng.IntN(3); k < m; k++ {
+				ctr++
+				op := []string{"1", common.I(rem), common.I(ctr % 256)}
+				for j, sz := 0, []int{3999, 8190, 5999}[rng.IntN(3)]; j < sz; j++ {
+					op = append(op, common.I((ctr+j*7)%256))
+				}
+				do(op...)
+				marker()
+			}
+			do("2")
+			h.Tags = append(h.Tags, "large_datagrams_before_accept")
+			continue
+		}
 		switch c := rng.IntN(100); {
 		case c < 45:
 			ctr++
@@ -616,6 +640,11 @@ func runHistory(h *common.History, rng *rand.Rand) {
 		case c < 97:
 			do("5")
 			h.Tags = append(h.Tags, "listener_close")
+		case c < 98:
+			if len(r.conns) > first {
+				do("7", common.I(first+rng.IntN(len(r.conns)-first)))
+				h.Tags = append(h.Tags, "oversize_write")
+			}
 		default:
 			do("2")
 		}
